@@ -49,6 +49,15 @@ func NDPOptionsRaw(t *rapid.T, allowBad bool) []byte {
 		if allowBad && units == 0 {
 			opt = []byte{typ, 0}
 		}
+		if allowBad && rapid.IntRange(0, 9).Draw(t, "hugeLen") == 0 {
+			// a length octet of 32 or more (256+ bytes) in front of a short body: the byte count does not fit an octet
+			lb := rapid.SampledFrom([]int{32, 33, 34, 63, 64, 65, 128, 129, 255}).Draw(t, "hugeLenV")
+			present := rapid.SampledFrom([]int{(lb * 8) % 256, (lb*8)%256 + 8, 8, 16, 24}).Draw(t, "hugePresent")
+			if present < 2 {
+				present = 8
+			}
+			opt = append([]byte{typ, byte(lb)}, Bytes(t, present-2, "hugeBody")...)
+		}
 		out = append(out, opt...)
 	}
 	if allowBad {
@@ -257,9 +266,19 @@ func (w World) ViewBytes(t *rapid.T, name string) []byte {
 			b[0], b[1] = 0, rapid.SampledFrom([]byte{1, 1, 1, 0, 2}).Draw(t, "opc")
 		}
 	case "HopByHopExtensionHeader":
-		units := rapid.IntRange(0, 3).Draw(t, "hl")
+		units := rapid.OneOf(rapid.IntRange(0, 3), rapid.IntRange(0, 3), rapid.SampledFrom([]int{30, 31, 32, 33, 63, 64, 127, 128, 254, 255})).Draw(t, "hl")
 		b = []byte{rapid.SampledFrom([]byte{58, 17, 6, 0}).Draw(t, "hn"), byte(units)}
-		for len(b) < units*8+8+rapid.IntRange(0, 4).Draw(t, "slack") {
+		if units > 3 && rapid.IntRange(0, 3).Draw(t, "hfull") != 0 { // a long header: mostly PadN options, the last few drawn below
+			for len(b) < units*8+8-40 {
+				n := min0(253, units*8+8-40-len(b)-2)
+				b = append(b, 1, byte(n))
+				b = append(b, make([]byte, n)...)
+			}
+		}
+		for len(b) < units*8+8+rapid.IntRange(0, 4).Draw(t, "slack") && len(b) < 2200 {
+			if units > 3 && len(b) > 80 && len(b) < units*8+8-40 { // a long length claimed by a short header: stop early
+				break
+			}
 			switch rapid.IntRange(0, 5).Draw(t, "ho") {
 			case 0:
 				b = append(b, 0)
@@ -307,6 +326,16 @@ func (w World) ViewBytes(t *rapid.T, name string) []byte {
 			pos := rapid.IntRange(0, lim-1).Draw(t, "vpos")
 			b[pos] = rapid.SampledFrom([]byte{0, 1, b[pos] - 1, b[pos] + 1, 0x0f, 0x4f, 0xf0, 0xff, rapid.Byte().Draw(t, "vb")}).Draw(t, "vv")
 		}
+	}
+	return b
+}
+
+func min0(a, b int) int {
+	if b < 0 {
+		return 0
+	}
+	if a < b {
+		return a
 	}
 	return b
 }
